@@ -39,7 +39,9 @@ Definition plain (p : list stmt) : list ev := flat_map plain_stmt p.
 Inductive estep :=
 | ExecBody                          (* exec(compile(code_block)): the statements still in code_block.body *)
 | EvalLast                          (* result = eval(compile(Expression(last.value))) *)
-| BindResultNames                   (* globals[v] = result for RESULT_KEY and every name target of the last assignment *)
+| BindResultNames (when_complex : bool)
+                                    (* globals[v] = result for RESULT_KEY and for every name target of the last assignment; when that
+                                       assignment also has a non-name target the names are bound here only if when_complex *)
 | ExecComplexAssign (reuse : bool)  (* when the last assignment has a non-name target: exec Assign(targets, value),
                                        value = Name(RESULT_KEY) (reuse) or the original right-hand side again (not reuse) *)
 | BindResultLastGlobal.             (* globals[RESULT_KEY] = last global value *)
@@ -56,7 +58,9 @@ Definition run_step (body : list stmt) (last : stmt) (e : N) (st : estep) : list
   match st with
   | ExecBody => plain body
   | EvalLast => [EvExpr e]
-  | BindResultNames => EvStoreName result_name e :: map (fun n => EvStoreName n e) (if is_assign last then name_targets last else [])
+  | BindResultNames wc =>
+      EvStoreName result_name e ::
+      map (fun n => EvStoreName n e) (if is_assign last && (wc || negb (has_complex last)) then name_targets last else [])
   | ExecComplexAssign reuse =>
       if is_assign last && has_complex last
       then (if reuse then [] else [EvExpr e]) ++ map (store e) (s_targets last)
@@ -84,6 +88,10 @@ Definition evaluate_events (sh : eshape) (p : list stmt) : list ev :=
 Definition effectful (x : ev) : bool := match x with EvStoreName _ _ => false | _ => true end.
 Definition effects (l : list ev) : list ev := filter effectful l.
 
+(* everything the program itself does: all events except the binding of the reserved name __result__ *)
+Definition no_result (x : ev) : bool := match x with EvStoreName n _ => negb (N.eqb n result_name) | _ => true end.
+Definition program_events (l : list ev) : list ev := filter no_result l.
+
 (* the expression a name is finally bound to *)
 Fixpoint last_store (n : N) (l : list ev) : option N :=
   match l with
@@ -97,15 +105,15 @@ Fixpoint last_store (n : N) (l : list ev) : option N :=
 (* the decidable description of a plan that does what plain execution does *)
 Definition estep_eqb (a b : estep) : bool :=
   match a, b with
-  | ExecBody, ExecBody | EvalLast, EvalLast | BindResultNames, BindResultNames | BindResultLastGlobal, BindResultLastGlobal => true
-  | ExecComplexAssign x, ExecComplexAssign y => Bool.eqb x y
+  | ExecBody, ExecBody | EvalLast, EvalLast | BindResultLastGlobal, BindResultLastGlobal => true
+  | ExecComplexAssign x, ExecComplexAssign y | BindResultNames x, BindResultNames y => Bool.eqb x y
   | _, _ => false
   end.
 Fixpoint plan_eqb (a b : list estep) : bool :=
   match a, b with [], [] => true | x :: r, y :: s => estep_eqb x y && plan_eqb r s | _, _ => false end.
 Definition shape_ok (sh : eshape) : bool :=
   forallb (fun k => N.eqb k k_Expr || N.eqb k k_Assign) (sh_kinds sh)
-  && plan_eqb (sh_popped sh) [ExecBody; EvalLast; BindResultNames; ExecComplexAssign true]
+  && plan_eqb (sh_popped sh) [ExecBody; EvalLast; BindResultNames false; ExecComplexAssign true]
   && plan_eqb (sh_other sh) [ExecBody; BindResultLastGlobal].
 
 (* programs of the quantifier: Expr statements have a value and no targets, Assign statements have a value and >= 1 target,
